@@ -180,6 +180,7 @@ FORMS = {
     "ixor":       ("clk", ("Port", "Signal"), "FPushOp"),        # t ^= s
     "push":       ("clk", ("Port", "Signal"), "FPushAttr"),      # t.push = s
     "slice":      ("conc", ("Port",), "FSlice"),                 # t[hi:lo] <<= s  (typed through a view)
+    "view":       ("conc", ("Port",), "FView"),                  # t.signed / t.unsigned / t.bitvector <<= s  (carrier of kind root)
     "elem":       ("conc", ("Port",), "FElem"),                  # t[i] <<= s
     "decl_sig":   ("conc", ("Signal",), "FDeclSig"),             # Signal[T](s) inside a context
     "decl_var":   ("comb", ("Variable",), "FDeclVar"),           # Variable[T](s) inside a context
@@ -190,19 +191,28 @@ FORMS = {
     "ifexp_b":    ("conc", ("Port",), "FIfB"),                   # t <<= t0 if c else s
     "ret_a":      ("comb", ("Port",), "FRetA"),                  # t <<= f(c, s, t0)   (two returns)
     "ret_b":      ("comb", ("Port",), "FRetB"),
+    "sel_a":      ("conc", ("Port",), "FIfA"),                   # t <<= select_with(c, {True: s}, default=t0)
+    "sel_b":      ("conc", ("Port",), "FIfB"),                   # t <<= select_with(c, {True: t0}, default=s)
 }
+MERGE_A = ("ifexp_a", "ret_a", "sel_a")
+MERGE_B = ("ifexp_b", "ret_b", "sel_b")
+# source shapes: the source as a plain port, or as an expression temporary of the same type and value
+SHAPES = ("plain", "or", "add0", "fn", "resize")
 ROOTS = ("BV", "U", "S")
 
 
 class Item:
     """one conversion statement inside a design"""
 
-    def __init__(self, k, form, qual, src, tgt, src_expr, root=None):
+    def __init__(self, k, form, qual, src, tgt, src_expr, root=None, shape="plain", other=None):
         self.k, self.form, self.qual, self.src, self.tgt, self.src_expr, self.root = k, form, qual, src, tgt, src_expr, root
+        self.shape, self.other = shape, other
 
     def out_type(self):
         if self.form == "slice":
             return (self.root, self.tgt[1] + 2)
+        if self.form == "view":
+            return (self.root, self.tgt[1])
         if self.form == "elem":
             return (self.root, 3)
         return self.tgt
@@ -253,6 +263,10 @@ def emit_item(it: Item, D):
         body.append(f"            {q}[{n}:1]{view} <<= {S}")
         body.append(f"            {q}[0] <<= Null")
         body.append(f"            {q}[{n + 1}] <<= Null")
+    elif form == "view":
+        outport()
+        view = {"BV": ".bitvector", "U": ".unsigned", "S": ".signed"}[tgt[0]]
+        body.append(f"            {q}{view} <<= {S}")
     elif form == "elem":
         outport()
         body.append(f"            {q}[1] <<= {S}")
@@ -288,13 +302,20 @@ def emit_item(it: Item, D):
         D["pre"].append(f"        Sub{k}(i={S}, o={q})")
     elif form in ("ifexp_a", "ifexp_b"):
         outport()
-        t0 = D["t0"](tgt)
+        t0 = D["t0"](tgt, it.other)
         e = f"({S} if self.c else {t0})" if form == "ifexp_a" else f"({t0} if self.c else {S})"
+        body.append(f"            {q} <<= {e}")
+        D["need_c"] = True
+    elif form in ("sel_a", "sel_b"):
+        outport()
+        t0 = D["t0"](tgt, it.other)
+        e = (f"select_with(self.c, {{True: {S}}}, default={t0})" if form == "sel_a"
+             else f"select_with(self.c, {{True: {t0}}}, default={S})")
         body.append(f"            {q} <<= {e}")
         D["need_c"] = True
     elif form in ("ret_a", "ret_b"):
         outport()
-        t0 = D["t0"](tgt)
+        t0 = D["t0"](tgt, it.other)
         D["need_f"] = True
         D["need_c"] = True
         args = f"self.c, {S}, {t0}" if form == "ret_a" else f"self.c, {t0}, {S}"
@@ -309,7 +330,11 @@ def build_design(items, inputs, t0_mode="port"):
     D = {"ports": [], "pre": [], "conc": [], "comb": [], "clk": [], "subs": [], "nonlocal": [], "need_c": False,
          "need_f": False, "extra_in": [], "nl_conc": [], "nl_clk": [], "nl_comb": []}
 
-    def t0(tgt):
+    def t0(tgt, other=None):
+        if other is not None:
+            if other[0] in ("Null", "Full"):
+                return other[0]
+            tgt = other          # a run-time value of its own (narrower) type
         if t0_mode == "port":
             nm = f"t{len(D['extra_in'])}"
             D["extra_in"].append((nm, tgt))
@@ -330,8 +355,8 @@ def build_design(items, inputs, t0_mode="port"):
     D["t0"] = t0
     for it in items:
         emit_item(it, D)
-    src = ["import cohdl", "from cohdl import Bit, BitVector, Port, Unsigned, Signed, Variable, Signal, Null, Full",
-           "from cohdl import std", ""]
+    src = ["import cohdl", "from cohdl import Bit, BitVector, Port, Unsigned, Signed, Variable, Signal, Null, Full, select_with",
+           "from cohdl import std", "", "def tmp_of(x):", "    return x | x", ""]
     if D["need_f"]:
         src += ["def pick(c, x, y):", "    if c:", "        return x", "    return y", ""]
     src += D["subs"]
